@@ -900,7 +900,7 @@ def c20(prop, tier, seed, wd, explore, limit, kinds, we):
             pp = P.param_vectors(kind, r, S, 1)[0]
             if kind == "RPFC":
                 pp = (16,)
-            dc.append(Case(kind, pp, "wordpairs:%d" % len(S), S, "fresh", 1, ("locate", "extract"), seed=gen.splitmix(seed, v, 43), flavor="fast", cpu=300, tags=("pairs_gt_98303",)))
+            dc.append(Case(kind, pp, "wordpairs:%d" % len(S), S, "fresh", 1, ("locate", "extract"), seed=gen.splitmix(seed, v, 43), flavor="fast", cpu=300 if tier == "quick" else 1800, tags=("pairs_gt_98303",)))
     rule = ("Re-Pair on integer sequences of 10 shapes (no repeated pair, one string, runs, abab, Fibonacci words, copies, near-identical strings, random over 2 / 254 symbols, thousands of short strings over 3-4 letters): the caller's array is walked the way the dictionaries' "
             "compaction loops do and expanded symbol for symbol against the original; no rule side is 0 or beyond terminals+rules; getBits suffices; expandRule agrees; save/loadNoSeq reproduces the rule table; "
             "plus the five Re-Pair based dictionary kinds on the same kinds of text against the model; a case is one comp_driver process or one dictionary case")
